@@ -1,4 +1,4 @@
-import MahfModel.Model.PopStack
+import MahfModel.Model.PopStackScope
 open MahfModel
 
 /-- Kind of the first deviation between what the plain stack says and what the implementation did. -/
@@ -18,21 +18,30 @@ def devClass : List Sexp → List Sexp → String
       else "wrong-value"
   | _, _ => "count"
 
+/-- The final read of the stack panicked (`Populations` is no longer found in the state). -/
+def stackLost (x : Sexp) : Bool :=
+  match x with
+  | .list [_, .list [.atom "stack", .atom "panic"]] => true
+  | _ => false
+
 def outsOf (x : Sexp) : List Sexp :=
   match x with
   | .list (o :: _) => (Sexp.tagged? "outs" o).getD []
   | _ => []
 
-/-- K: the code-shaped model (fed with the witnesses read off the real run: order of equal objective values in a
+/-- Input: a program `(ops ITEM*)` on one `State` (stack operations, utility components, failing steps, nested
+scopes of every kind; the caller carries on after every top-level result).
+K: the code-shaped model (registry chain, `with_inner_state`, `?`; fed with the witnesses read off the real run: order of equal objective values in a
 split, stack height after a component panic) reproduces the implementation's output exactly.
 O: the implementation's output is what the plain stack gives for the same history and witnesses. -/
 def c04 (input implOut : Sexp) : Option Verdict := do
-  let (model, spec) ← PopStack.handleCase input implOut
+  let (model, spec) ← PopStack.handleCaseS input implOut
   let agree := Sexp.beq model implOut
   let holds := Sexp.beq spec implOut
   let cls :=
     if holds then "-"
-    else if (outsOf spec).map Sexp.render == (outsOf implOut).map Sexp.render then "stack"
+    else if (outsOf spec).map Sexp.render == (outsOf implOut).map Sexp.render then
+      (if stackLost implOut then "panic" else "stack")
     else devClass (outsOf spec) (outsOf implOut)
   pure { agree, holds, cls, model }
 
